@@ -291,7 +291,9 @@ def unit_corpus(a):
             cases.append({"sub": "layout", "text": t, "label": "corpus:" + n, "choices": [(v * 37 + i * 11 + a["seed"]) % 256 for i in range(24)]})
     for n, t in noisy.length_boundary_documents(False):
         cases.append({"sub": "layout", "text": t, "label": "length-boundary:" + n, "choices": [(len(t) * 7 + i * 13 + a["seed"]) % 256 for i in range(24)]})
-    for t in ["#\x00!\x00 comment\nFeature: f\n", "F\x00e\x00a\x00t\x00", "\ufffeFeature: f\n", "\u00ff\u00feFeature: f\n", "# -*- coding: latin-1 -*-\nFeature: caf\u00e9\n",
+    for t in ["# encoding: iso-8859-1\nFeature: Caf\u00e9\n Scenario: \u00fc\n", "# encoding: utf-16\nFeature: f\n", "#encoding:cp1252\n# language: fr\nFonctionnalit\u00e9: \u20ac\n",
+              "# vim: set fileencoding=latin-1 :\nFeature: \u00e9\n", "Feature: I keep $HOME and ${HOME} and ~/x\n Scenario: $PATH\n  Given $USER\n", "~/notes\n",
+              "#\x00!\x00 comment\nFeature: f\n", "F\x00e\x00a\x00t\x00", "\ufffeFeature: f\n", "\u00ff\u00feFeature: f\n", "# -*- coding: latin-1 -*-\nFeature: caf\u00e9\n",
               "Feature: f\n Scenario: s\n @dangling\n\n\n", "Feature: f\n Scenario: s\n  Given x\n   \"\"\"\n\n\n\n", "Feature: f\n\n\n\n", "\n\n\n", "Feature: f\n @t\n # c\n\n",
               "Feature: f\n Scenario: s\n  Given x\n   | a |\n\n\n", "garbage\n\n\n"]:
         cases.append({"sub": "layout", "text": t, "label": "ends-in-blank-lines", "choices": [3] * 24})
